@@ -76,6 +76,20 @@ func validateObserverDataEligibility(
 	return nil
 }
 
+// validateObservedChains checks that commit reports, messages and token data are only filed under chains that have
+// a configured F. The merges have no threshold for any other chain and fail for every observer when they meet one.
+func validateObservedChains(fChain map[cciptypes.ChainSelector]int, obs exectypes.Observation) error {
+	observed := maps.Keys(obs.CommitReports)
+	observed = append(observed, maps.Keys(obs.Messages)...)
+	observed = append(observed, maps.Keys(obs.TokenData)...)
+	for _, chainSel := range observed {
+		if _, ok := fChain[chainSel]; !ok {
+			return fmt.Errorf("observation for chain %d which has no configured F", chainSel)
+		}
+	}
+	return nil
+}
+
 // validateObservedSequenceNumbers checks if the sequence numbers of the provided messages are unique for each chain
 // and that they match the observed max sequence numbers.
 func validateObservedSequenceNumbers(
